@@ -213,7 +213,7 @@ def _multicall_format(fn):
     """('[ {0} ]', ',') from `"[ {0} ]".format(",".join(...))`, and whether the jobs are iterated in list order.
     Read on the canonical form: a list filled by a `for … append` loop is the list comprehension, a local used once
     by the next statement is the expression it holds (`parts = […]; body = "[ {0} ]".format(",".join(parts))`)."""
-    fn = norm.clone(fn)
+    fn = norm.unalias_self_attrs(norm.clone(fn))
     norm.loops_to_comprehensions(fn)
     norm.fold_single_use_locals(fn)
     for n in ast.walk(fn):
@@ -513,6 +513,165 @@ def _getattr_appends(fn, notify):
     return bool(appended and returned)
 
 
+_MUTATORS = ("update", "setdefault", "pop", "popitem", "clear", "append", "extend", "insert", "remove", "add", "discard",
+             "sort", "reverse", "__setitem__", "__delitem__", "__setattr__", "__delattr__")
+_REGISTRY_FIELDS = ("funcs", "instance", "allow_dotted_names")
+_SERVE_METHODS = ("_marshaled_dispatch", "_unmarshaled_dispatch", "_marshaled_single_dispatch", "_dispatch",
+                  "_method_exception_fault", "_safe_jdumps")
+
+
+def _root_chain(e):
+    """('self', ['funcs']) for `self.funcs`, `self.funcs[k]`, `self.funcs[k].x` …; None when not rooted at a name."""
+    chain = []
+    while True:
+        if isinstance(e, ast.Attribute):
+            chain.append(e.attr)
+            e = e.value
+        elif isinstance(e, ast.Subscript):
+            chain.append("[]")
+            e = e.value
+        elif isinstance(e, ast.Call) and _name(e.func) in ("getattr", "vars") and e.args:
+            chain.append("%s()" % e.func.id)
+            e = e.args[0]
+        else:
+            break
+    if isinstance(e, ast.Name):
+        return e.id, list(reversed(chain))
+    return None
+
+
+def _request_writes(cls):
+    """
+    What the methods of SimpleJSONRPCDispatcher that serve a request store into the registry (`self.funcs`,
+    `self.instance` and what hangs below them) or into an attribute of `self` itself: assignments, augmented assignments and `del` of attributes and items,
+    calls of mutating methods, `setattr` / `delattr`, and caching decorators on these methods (which keep results from
+    one request to the next).  A local alias of an attribute of `self` is the attribute.  Sorted "method: what".
+    """
+    out = set()
+    found = 0
+    for f in cls.body:
+        if not isinstance(f, ast.FunctionDef) or f.name not in _SERVE_METHODS:
+            continue
+        found += 1
+        for d in f.decorator_list:
+            txt = ast.unparse(d)
+            if any(w in txt.lower() for w in ("cache", "memo")):
+                out.add("%s: decorator %s" % (f.name, txt))
+        fn = norm.unalias_self_attrs(norm.clone(f))
+        # locals that hold (a part of) the object: `funcs = self.funcs` bound more than once, `d = vars(self)` …
+        tainted = set()
+        for n in ast.walk(fn):
+            if isinstance(n, ast.Assign) and len(n.targets) == 1 and isinstance(n.targets[0], ast.Name):
+                rc = _root_chain(n.value)
+                if rc is not None and rc[0] == "self" and rc[1] and rc[1][0] in _REGISTRY_FIELDS and not isinstance(n.value, ast.Call):
+                    tainted.add(n.targets[0].id)
+                elif isinstance(n.value, ast.Call) and _name(n.value.func) in ("vars", "getattr") and n.value.args \
+                        and _name(n.value.args[0]) == "self":
+                    tainted.add(n.targets[0].id)
+
+        def shared(e):
+            rc = _root_chain(e)
+            if rc is None:
+                return None
+            if rc[0] == "self" and rc[1] and (rc[1][0] in _REGISTRY_FIELDS or len(rc[1]) == 1):
+                return "self." + ".".join(rc[1])
+            if rc[0] in tainted and rc[1]:
+                return "%s(=self…).%s" % (rc[0], ".".join(rc[1]))
+            return None
+        for n in ast.walk(fn):
+            if isinstance(n, (ast.Attribute, ast.Subscript)) and isinstance(n.ctx, (ast.Store, ast.Del)):
+                w = shared(n)
+                if w:
+                    out.add("%s: %s %s" % (f.name, "del" if isinstance(n.ctx, ast.Del) else "store", w))
+            if isinstance(n, ast.Call):
+                if isinstance(n.func, ast.Attribute) and n.func.attr in _MUTATORS:
+                    rc = _root_chain(n.func.value)
+                    if rc is not None and ((rc[0] == "self" and rc[1] and rc[1][0] in _REGISTRY_FIELDS) or rc[0] in tainted):
+                        out.add("%s: call %s.%s" % (f.name, ".".join([rc[0]] + rc[1]), n.func.attr))
+                if _name(n.func) in ("setattr", "delattr") and n.args:
+                    rc = _root_chain(n.args[0])
+                    if rc is not None and (rc[0] == "self" or rc[0] in tainted):
+                        out.add("%s: %s(%s, …)" % (f.name, n.func.id, ".".join([rc[0]] + rc[1])))
+    if found < 4:
+        return None
+    return sorted(out)
+
+
+def _multicall_responses(fn):
+    """
+    MultiCall._request between the exchange and the iterator: (on EVERY path that makes the exchange and returns, what
+    is handed to MultiCallIterator is the value `_run_request` returned, `[]` or `[that value]`, and nothing touched the
+    value in between: no sorting, reversing, slicing, filtering, rebuilding, no method called on it, not handed to any
+    function but isinstance / check_for_errors / len / bool; how the jobs get their ids: 'default' when every
+    `job.request()` is called without arguments).  Path-sensitive: early returns, a local holding the iterator, the
+    order of the two tests do not matter.
+    """
+    ids = "default"
+    for n in ast.walk(fn):
+        if isinstance(n, ast.Call) and isinstance(n.func, ast.Attribute) and n.func.attr == "request" and (n.args or n.keywords):
+            ids = "explicit"
+    readers = ("isinstance", "check_for_errors", "len", "bool")
+
+    def sym(e, env):
+        if isinstance(e, ast.Name):
+            return env.get(e.id, "other")
+        if isinstance(e, ast.List):
+            if not e.elts:
+                return "[]"
+            if len(e.elts) == 1 and isinstance(e.elts[0], ast.Name) and env.get(e.elts[0].id) == "R":
+                return "[R]"
+            return "other"
+        if isinstance(e, ast.Call) and _name(e.func) == "MultiCallIterator" and len(e.args) == 1 and not e.keywords:
+            v = sym(e.args[0], env)
+            return "iter" if v in ("R", "[R]", "[]") else "other"
+        return "other"
+
+    seen_any, ok = False, True
+    for p in norm.paths(fn.body):
+        if p.end != "return":
+            continue
+        env, exchanged, result = {}, False, None
+        for ev in norm.path_events(p):
+            if ev[0] == "call":
+                c = ev[1]
+                if isinstance(c.func, ast.Attribute) and c.func.attr == "_run_request":
+                    exchanged = True
+                    continue
+                # the reply (or a list built from it) used by a call: only the readers and the iterator may see it
+                for a in list(c.args) + [k.value for k in c.keywords]:
+                    for m in ast.walk(a):
+                        if isinstance(m, ast.Name) and env.get(m.id) in ("R", "[R]") and _name(c.func) not in readers + ("MultiCallIterator",):
+                            env[m.id] = "other"
+                if isinstance(c.func, ast.Attribute) and isinstance(c.func.value, ast.Name) and env.get(c.func.value.id) in ("R", "[R]", "[]"):
+                    env[c.func.value.id] = "other"      # a method of the list / of the reply: sort, reverse, pop, insert …
+                continue
+            if ev[0] != "stmt":
+                continue
+            st = ev[1]
+            if isinstance(st, ast.Assign) and len(st.targets) == 1 and isinstance(st.targets[0], ast.Name):
+                v = st.value
+                if isinstance(v, ast.Call) and isinstance(v.func, ast.Attribute) and v.func.attr == "_run_request":
+                    env[st.targets[0].id] = "R"
+                else:
+                    env[st.targets[0].id] = sym(v, env)
+            elif isinstance(st, (ast.Assign, ast.AugAssign, ast.AnnAssign, ast.Delete)):
+                tgs = st.targets if isinstance(st, (ast.Assign, ast.Delete)) else [st.target]
+                for t in tgs:
+                    for m in ast.walk(t):
+                        if isinstance(m, ast.Name) and m.id in env:
+                            env[m.id] = "other"     # an item / slice / attribute of it is stored or deleted, or it is re-bound oddly
+            elif isinstance(st, ast.Return):
+                result = "none" if st.value is None or (isinstance(st.value, ast.Constant) and st.value.value is None) else sym(st.value, env)
+        if not exchanged:
+            continue        # the early return for an empty job list
+        seen_any = True
+        if result != "iter":
+            ok = False
+    if not seen_any:
+        return None
+    return (bool(ok), ids)
+
+
 def facts(src):
     src = norm.nsource(src)
     out = []
@@ -596,4 +755,18 @@ def facts(src):
                     None if rp is None else "(%s, %s)" % tuple("true" if b else "false" for b in rp), ["C01"],
                     "_Method.__call__ / MultiCallMethod.__call__ take their receiver from *args (any keyword name, `self` included, "
                     "is a keyword of the remote method)", json_value=rp))
+    cls = src.klass("SimpleJSONRPCServer", "SimpleJSONRPCDispatcher")
+    rw = _request_writes(cls) if cls is not None else None
+    out.append(Fact("requestWrites", "List String", None if rw is None else lean_list([lean_str(x) for x in rw]), ["C01"],
+                    "SimpleJSONRPCDispatcher: what _marshaled_dispatch / _unmarshaled_dispatch / _marshaled_single_dispatch / "
+                    "_dispatch (and their helpers) store into state rooted at self (self.funcs, self.instance …): a request "
+                    "must leave the registry as it found it", json_value=rw))
+    fn = src.func("jsonrpc", "MultiCall._request")
+    mr = _multicall_responses(fn) if fn is not None else None
+    out.append(Fact("multicallResponsesUntouched", "Bool", None if mr is None else ("true" if mr[0] else "false"), ["C01"],
+                    "MultiCall._request: the list handed to MultiCallIterator is the value _run_request returned ([] when falsy, "
+                    "[value] for a single object): not re-ordered, filtered or rebuilt", json_value=None if mr is None else mr[0]))
+    out.append(Fact("multicallJobIds", "String", None if mr is None else lean_str(mr[1]), ["C01"],
+                    "MultiCall._request: how the jobs get their ids ('default': job.request() without arguments, a fresh uuid each)",
+                    json_value=None if mr is None else mr[1]))
     return out
